@@ -260,3 +260,158 @@ Proof.
       { eapply Inv_equiv; [|exact I]. intro x. specialize (OC x). revert OC. occ_tac. }
       destruct (IH new tnew h e te (others ++ G) h' e' ok I0 Hre Hn UE ER) as [SC _]. exact SC.
 Qed.
+
+(* ------------------------------------------------------------------ inplace_when_unique: modify_existing_index *)
+(* the path p exists from cur, and every cell on it AND the cell it leads to has strong count 1 *)
+Fixpoint uleaf (h : heap) (cur : hval) (p : path) : Prop :=
+  match p with
+  | [] => match cur with HRef l _ => cnt_of h l = 1 | _ => True end
+  | pe :: rest =>
+    match cur with HRef l _ => cnt_of h l = 1 | _ => True end /\
+    match child_of h cur pe with Some e => uleaf h e rest | None => False end
+  end.
+
+Lemma uleaf_transfer h h' l p : differs_at h h' l -> occ l (handles_heap h) = 0 ->
+  forall cur, ~ In l (handles cur) -> (uleaf h cur p <-> uleaf h' cur p).
+Proof.
+  intros D U. induction p as [|pe rest IH]; intros cur N; simpl.
+  - destruct cur as [| z | m d | sid fs]; try tauto.
+    rewrite handles_ref in N. assert (m <> l) by (intro; subst; apply N; left; auto).
+    unfold cnt_of. rewrite (D m H). tauto.
+  - assert (CH : child_of h' cur pe = child_of h cur pe /\
+                 (match cur with HRef m _ => cnt_of h' m = cnt_of h m | _ => True end) /\
+                 (forall e, child_of h cur pe = Some e -> ~ In l (handles e))).
+    { destruct cur as [| z | m d | sid fs]; simpl;
+        try (split; [reflexivity|]; split; [exact I|]; intros e He; discriminate).
+      - rewrite handles_ref in N. assert (m <> l) by (intro; subst; apply N; left; auto).
+        unfold cnt_of. rewrite (D m H). split; [reflexivity|]. split; [reflexivity|].
+        intros e He. destruct (get_cell h m) as [c|] eqn:Hc; [|discriminate].
+        destruct (slot_of c pe) as [n|]; [|discriminate].
+        intro Hin. apply occ_notIn in U. apply U. eapply In_handles_heap; eauto. eapply handles_items_nth; eauto.
+      - split; [reflexivity|]. split; auto. intros e He. destruct pe; try discriminate.
+        destruct (Nat.eqb sid sid0); [|discriminate].
+        intro Hin. apply N. rewrite handles_inst. eapply handles_list_nth; eauto. }
+    destruct CH as [C1 [C2 C3]]. rewrite C1.
+    destruct (child_of h cur pe) as [e|] eqn:CE.
+    + pose proof (IH e (C3 e eq_refl)) as I1. destruct cur; try tauto. rewrite C2. tauto.
+    + destruct cur; try tauto.
+Qed.
+
+(* what the function applied to the addressed slot must satisfy: on a value whose own cell is unshared it copies nothing
+   and creates no cell *)
+Definition leaf_inplace (f : heap -> hval -> mres) : Prop :=
+  forall h cur h' cur' r, match cur with HRef l _ => cnt_of h l = 1 | _ => True end ->
+    f h cur = (h', cur', r) -> same_cost h h'.
+
+Lemma m_modify_inplace p : forall f, leaf_inplace f -> forall h cur t G h' cur' r,
+  Inv h (handles cur ++ G) -> repr h cur t -> uleaf h cur p ->
+  m_modify p f h cur = (h', cur', r) ->
+  same_cost h h' /\ (p <> [] -> same_root cur cur').
+Proof.
+  induction p as [|pe rest IH]; intros f Hf h cur t G h' cur' r I Hr UP E.
+  - simpl in E, UP. split; [eapply Hf; eauto | congruence].
+  - specialize (IH f Hf). simpl in UP. destruct UP as [UC UE].
+    destruct cur as [| z | l d | sid fields].
+    + simpl in UE. contradiction.
+    + simpl in UE. contradiction.
+    + destruct (repr_ref_inv_gen _ _ _ _ Hr) as [c [its [dv [Ht [Hc [Hits Hd]]]]]]. subst t.
+      pose proof (make_mut_at_one h l c Hc UC) as MM.
+      simpl in UE. rewrite Hc in UE.
+      destruct (slot_of c pe) as [n|] eqn:Hs; [|contradiction].
+      destruct (nth_item n (citems c)) as [e|] eqn:Hne; [|contradiction].
+      simpl in E. rewrite Hc in E.
+      assert (DESC : forall h3 e' r1, m_modify rest f (put_item h l n HNull) e = (h3, e', r1) ->
+                same_cost h (put_item h3 l n e')).
+      { intros h3 e' r1 ER.
+        rewrite handles_ref in I.
+        destruct (descend_open h l d c (ckind c) its dv n e G h l I Hr Hc Hne MM)
+          as [te [Hte [_ [Hre [Hr2 [C2 [Sopen _]]]]]]].
+        set (h2 := put_item h l n HNull) in *.
+        assert (I2 : Inv h2 (handles e ++ l :: handles_opt d ++ G)).
+        { eapply Inv_equiv; [|apply (st_inv _ _ _ _ _ Sopen)]. occ_tac. }
+        assert (UP2 : uleaf h2 e rest).
+        { assert (Cu : cnt c = 1) by (rewrite (cnt_of_cell _ _ _ Hc) in UC; auto).
+          destruct (owned_unique h (handles_opt d) G l c I Hc Cu) as [U1 [U2 U3]].
+          apply (uleaf_transfer h h2 l rest); auto.
+          - intros m Hm. unfold h2. rewrite (put_item_eq _ _ _ _ _ Hc). apply get_cell_set_items_neq. auto.
+          - intro Hin. apply occ_notIn in U3. apply U3. eapply In_handles_heap; eauto. eapply handles_items_nth; eauto. }
+        destruct (IH h2 e te _ h3 e' r1 I2 Hre UP2 ER) as [[C1 L1] _].
+        unfold h2 in *. revert C1 L1. cost. }
+      unfold slot_of in Hs.
+      destruct (ckind c) eqn:K; try discriminate.
+      * (* list *)
+        destruct pe as [z | bs | sid' f0 | lo hi]; try discriminate.
+        rewrite MM in E. rewrite Hs, Hne in E. cbv zeta in E.
+        destruct (m_modify rest f (put_item h l n HNull) e) as [[h3 e'] r1] eqn:ER. inversion E; subst; clear E.
+        split; [|simpl; auto]. eapply DESC; eauto.
+      * (* dict *)
+        destruct pe as [z | bs | sid' f0 | lo hi]; simpl in Hs; try discriminate.
+        -- simpl in E. rewrite MM in E. rewrite Hs, Hne in E. cbv zeta in E.
+           destruct (m_modify rest f (put_item h l n HNull) e) as [[h3 e'] r1] eqn:ER. inversion E; subst; clear E.
+           split; [|simpl; auto]. eapply DESC; eauto.
+        -- simpl in E. rewrite MM in E. rewrite Hs, Hne in E. cbv zeta in E.
+           destruct (m_modify rest f (put_item h l n HNull) e) as [[h3 e'] r1] eqn:ER. inversion E; subst; clear E.
+           split; [|simpl; auto]. eapply DESC; eauto.
+    + (* struct instance *)
+      inversion Hr; subst. match goal with H : repr_list _ _ _ |- _ => rename H into Hfs end.
+      simpl in E. split; [|simpl; auto].
+      simpl in UE.
+      destruct pe as [z | bs | sid' f0 | lo hi]; try contradiction.
+      destruct (Nat.eqb sid sid') eqn:Es; [|contradiction].
+      destruct (nth_error fields f0) as [e|] eqn:Ef; [|contradiction].
+      destruct (repr_list_nth _ _ _ _ _ Hfs Ef) as [te [Hte Hre]].
+      destruct (m_modify rest f h e) as [[h1 e'] r1] eqn:ER. inversion E; subst; clear E.
+      set (others := handles_list (hset_field f0 HNull fields)).
+      assert (OC : forall x, occ x (handles_list fields) = occ x (handles e) + occ x others).
+      { intro x. pose proof (occ_list_set_field x fields f0 HNull e Ef). rewrite handles_null in H. unfold others. revert H. occ_tac. }
+      rewrite handles_inst in I.
+      assert (I0 : Inv h (handles e ++ others ++ G)).
+      { eapply Inv_equiv; [|exact I]. intro x. specialize (OC x). revert OC. occ_tac. }
+      destruct (IH h e te (others ++ G) h' e' r I0 Hre UE ER) as [SC _]. exact SC.
+Qed.
+
+(* the three consuming builtins on an unshared cell *)
+Lemma pop_inplace : leaf_inplace m_f_pop.
+Proof.
+  intros h cur h' cur' r U E. unfold m_f_pop in E.
+  destruct cur as [| z | l d | sid fs]; try (inversion E; subst; apply same_cost_refl).
+  destruct (get_cell h l) as [c|] eqn:Hc; [|inversion E; subst; apply same_cost_refl].
+  destruct (ckind c); try (inversion E; subst; apply same_cost_refl).
+  rewrite (make_mut_at_one h l c Hc U) in E.
+  destruct (nth_item (length (citems c) - 1) (citems c)); inversion E; subst; cost.
+Qed.
+
+Lemma remove_inplace pe : is_slice pe = false -> leaf_inplace (m_f_remove pe).
+Proof.
+  intros NSl h cur h' cur' r U E. unfold m_f_remove in E.
+  destruct cur as [| z | l d | sid fs]; try (inversion E; subst; apply same_cost_refl).
+  destruct (get_cell h l) as [c|] eqn:Hc; [|inversion E; subst; apply same_cost_refl].
+  pose proof (make_mut_at_one h l c Hc U) as MM.
+  destruct (ckind c); try (inversion E; subst; apply same_cost_refl).
+  - destruct pe as [z | bs | sid' f0 | lo hi]; try discriminate; try (inversion E; subst; apply same_cost_refl).
+    destruct (norm_index (length (citems c)) z); [|inversion E; subst; apply same_cost_refl].
+    destruct (nth_item n (citems c)); [|inversion E; subst; apply same_cost_refl].
+    rewrite MM in E. inversion E; subst; cost.
+  - destruct pe as [z | bs | sid' f0 | lo hi]; try discriminate; rewrite MM in E; simpl in E;
+      repeat match type of E with context [match ?x with _ => _ end] => destruct x end; inversion E; subst; cost.
+Qed.
+
+Lemma consume_inplace : leaf_inplace m_f_consume.
+Proof. intros h cur h' cur' r U E. unfold m_f_consume in E. inversion E; subst. apply same_cost_refl. Qed.
+
+Definition lop_path (m : lop) : path :=
+  match m with LSet p _ | LEvery p _ | LOp p _ _ | LPop p | LRemove p _ | LConsume p => p end.
+
+Definition is_inplace_lop (m : lop) : bool :=
+  match m with LPop _ | LConsume _ => true | LRemove _ i => negb (is_slice i) | _ => false end.
+
+Lemma m_lop_inplace m : is_inplace_lop m = true -> forall h cur t G h' cur' r,
+  Inv h (handles cur ++ G) -> repr h cur t -> uleaf h cur (lop_path m) ->
+  m_lop m h cur = (h', cur', r) ->
+  same_cost h h' /\ (lop_path m <> [] -> same_root cur cur').
+Proof.
+  destruct m; simpl; intro H; try discriminate; intros.
+  - eapply m_modify_inplace; eauto. apply pop_inplace.
+  - eapply m_modify_inplace; eauto. apply remove_inplace. destruct (is_slice i); auto; discriminate.
+  - eapply m_modify_inplace; eauto. apply consume_inplace.
+Qed.
